@@ -9,6 +9,9 @@ liquidity site (delta sign -> round_up); the amounts the pool credits or pays ar
 fee growth is flipped, credited and handed to crossed ticks side-consistently and only after
 the step's own fee is booked;
 deposit / withdrawal sides of the swap settlement.
+Also decided: the collecting and liquidity instructions' positions, vaults and mints are tied to the pool
+named and the Pinocchio fee-growth bookkeeping follows the Anchor one (instances of C15.R1/R3
+and C07.R3/R4 re-decided here);
 Not decided: that these roundings compose to vault >= sum of claims over histories; any
 statement about balances; the no-round-trip-profit claim."""
 from analysis import cfg, atoms as A, preach, pino, program, writes
